@@ -37,13 +37,11 @@ def spline_calls(ctx, inst):
         rec.append({"x": np.array(x, dtype=float), "y": np.array(y, dtype=float), "s": s, "k": k, "w": w, "t": t, "per": per})
         return real_splrep(x, y, w=w, xb=xb, xe=xe, k=k, task=task, s=s, t=t, full_output=full_output, per=per, quiet=quiet)
 
-    class BS:
-        def __init__(self, *a, **kw):
-            self.f = real_bspline(*a, **kw)
-
+    class BS(real_bspline):
+        # a subclass, so that attributes the code sets on the returned object (extrapolate, ...) act on the real spline
         def __call__(self, q, *a, **kw):
             ev.append({"at": np.array(q, dtype=float)})
-            return self.f(q, *a, **kw)
+            return real_bspline.__call__(self, q, *a, **kw)
     process.splrep, process.BSpline = splrep, BS
     try:
         yield (lambda: rec), (lambda: ev)
@@ -167,9 +165,15 @@ class ToFunctionAfterHistory(Family):
                 if d["op"] == "normalize_y" and pre is not None:
                     continue          # min/max over reshaped values: orderings multiply, nothing new for this claim
                 out.append({"L": 5, "pre": pre, "d": d})
+        # the other order: a domain operation first, then an operation that changes the values, then to_function()
+        for d in domain_ops("quick"):
+            for post in (("trend", "smooth", "noise") if d["op"] == "append_one_sample" else ("trend",)):
+                if d["op"] == "normalize_y":
+                    continue
+                out.append({"L": 5, "pre": None, "d": d, "post": post})
         return out
 
-    def run(self, ctx, inst, L, pre, d):
+    def run(self, ctx, inst, L, pre, d, post=None):
         import warnings
         from traffic_weaver import Weaver
         from checks.weaverfam import apply_domain, apply_reshape
@@ -184,10 +188,12 @@ class ToFunctionAfterHistory(Family):
                 apply_domain(ctx, w, d, tag="d_")
                 if len(w.x) < 5:
                     return            # the property speaks of series of >= 5 points (a cubic spline needs > 3)
+                if post is not None:
+                    apply_reshape(ctx, w, post, tag="post_")
                 n0 = len(calls_of())
                 f = w.to_function()
                 cx_, cy_ = w.get()
-                info = {"pre": pre, "op": d["op"]}
+                info = {"pre": pre, "op": d["op"], "post": post}
                 calls = calls_of()
                 # (whether a new fit is made is an implementation matter - a correctly invalidated cache would be
                 #  fine; what is claimed is what the returned function does)
